@@ -54,6 +54,7 @@ def main():
                 open(p, "w").write(s)
             if not ok_apply:
                 res.append((m["id"], "MUTANT-DOES-NOT-APPLY", ""))
+                print("%-34s %-12s %s" % res[-1])
                 sh("git -C %s checkout -- ." % WT)
                 continue
             verdicts = []
